@@ -315,7 +315,24 @@ def list_outputs(outdir):
     return sorted(os.listdir(outdir))
 
 
+_OUTDIR_CALLS = [0]
+OUTDIR_SPELLINGS = {}
+
+
 def fresh_outdir(workdir, tag):
-    d = os.path.join(workdir, 'gen_%s' % tag, 'instances')
-    shutil.rmtree(os.path.dirname(d), ignore_errors=True)
+    """A not yet existing output directory.  One in six has a name a temp-dir campaign never produces
+    (capitals, blanks, '%', '=', option look-alikes, non-ASCII letters) in the directory itself or its parent."""
+    from .engine import HOSTILE_NAMES
+    top = os.path.join(workdir, 'gen_%s' % tag)
+    shutil.rmtree(top, ignore_errors=True)
+    _OUTDIR_CALLS[0] += 1
+    k = _OUTDIR_CALLS[0]
+    frag = HOSTILE_NAMES[(k // 6) % len(HOSTILE_NAMES)]
+    if k % 12 == 5:
+        kind, d = 'hostile_parent_name', os.path.join(top, frag, 'instances')
+    elif k % 12 == 11:
+        kind, d = 'hostile_directory_name', os.path.join(top, 'hr' + frag)
+    else:
+        kind, d = 'plain', os.path.join(top, 'instances')
+    OUTDIR_SPELLINGS[kind] = OUTDIR_SPELLINGS.get(kind, 0) + 1
     return d
